@@ -128,7 +128,7 @@ fn c01_backward(ctx: &Ctx, rec: &mut Rec, s: &[u8], class: &str) {
 pub fn run_c01(ctx: &Ctx, rec: &mut Rec) {
     const P: &str = "C01";
     let mut zrng = rng_for(ctx.seed, P, 999, 0);
-    let zoo = shadow_zoo(ctx, &mut zrng, ctx.scale(40, 400));
+    let zoo = shadow_zoo(ctx, &mut zrng, ctx.scale(80, 500));
     for cl in ["identity", "identity'", "G", "other-rep", "rescaled", "elligator", "random-decode", "kG", "program-register"] {
         rec.declare_class(&format!("fwd:{cl}"));
     }
@@ -148,7 +148,7 @@ pub fn run_c01(ctx: &Ctx, rec: &mut Rec) {
                 }
             }
         }
-        let nprog = ctx.scale(300, 30000);
+        let nprog = ctx.scale(2500, 40000);
         for pi in 0..nprog {
             if pi % n != w {
                 continue;
@@ -163,7 +163,7 @@ pub fn run_c01(ctx: &Ctx, rec: &mut Rec) {
     });
     // backward
     let mut srng = rng_for(ctx.seed, P, 999, 2);
-    let strings = decode_strings(ctx, &mut srng, ctx.scale(20, 200), ctx.scale(20000, 2_000_000), true);
+    let strings = decode_strings(ctx, &mut srng, ctx.scale(40, 200), ctx.scale(100_000, 2_000_000), true);
     rec.count("strings", strings.len() as u64);
     par(rec, |w, n, rec| {
         for (i, (s, class)) in strings.iter().enumerate() {
@@ -261,7 +261,7 @@ pub fn run_c02(ctx: &Ctx, rec: &mut Rec) {
         rec.declare_class(cl);
     }
     let mut srng = rng_for(ctx.seed, P, 999, 0);
-    let mut strings = decode_strings(ctx, &mut srng, ctx.scale(20, 200), ctx.scale(30000, 3_000_000), true);
+    let mut strings = decode_strings(ctx, &mut srng, ctx.scale(40, 200), ctx.scale(60_000, 3_000_000), true);
     // all lengths 0..=80 (several contents each), around 32 in particular
     for len in 0..=80usize {
         strings.push((vec![0u8; len], "length"));
@@ -484,7 +484,7 @@ pub fn run_c03(ctx: &Ctx, rec: &mut Rec) {
         rec.declare_class(cl);
     }
     let mut zrng = rng_for(ctx.seed, P, 999, 0);
-    let zoo = shadow_zoo(ctx, &mut zrng, ctx.scale(30, 300));
+    let zoo = shadow_zoo(ctx, &mut zrng, ctx.scale(80, 400));
     par(rec, |w, n, rec| {
         let mut rng = rng_for(ctx.seed, P, w, 1);
         for (i, e) in zoo.iter().enumerate() {
@@ -507,7 +507,7 @@ pub fn run_c03(ctx: &Ctx, rec: &mut Rec) {
                 rec.sample(json!({"class": e.class, "element": el_json(&e.l), "encoding": hx(&enc_quiet(&e.l))}));
             }
         }
-        let nprog = ctx.scale(200, 20000);
+        let nprog = ctx.scale(2500, 30000);
         for pi in 0..nprog {
             if pi % n != w {
                 continue;
